@@ -154,7 +154,7 @@ static void printInverses( SDAI_Application_instance * x ) {
 
 int main( int argc, char ** argv ) {
     if( argc < 4 ) {
-        std::cerr << "usage: h_lazy FILE MAXID index|eager|load [id...]" << std::endl;
+        std::cerr << "usage: h_lazy FILE MAXID index|eager|registry|load [id...]" << std::endl;
         return 2;
     }
     std::string file = argv[1];
@@ -180,6 +180,34 @@ int main( int argc, char ** argv ) {
             }
             std::cout << "EAGER " << inst->StepFileId() << " " << kw << " " << writeOf( inst ) << std::endl;
         }
+        return 0;
+    }
+    if( mode == "registry" ) {
+        // the hierarchy as the generated schema init code registered it: per entity its supertype list and its subtype list
+        // (EntityDescriptor::_supertypes / _subtypes, the lists supertypesIterator / subtypesIterator walk), in registry order
+        Registry reg( SchemaInit );
+        reg.ResetEntities();
+        const EntityDescriptor * e;
+        while( ( e = reg.NextEntity() ) ) {
+            std::cout << "ENT " << e->Name() << " SUPS";
+            {
+                EntityDescItr it( e->Supertypes() );
+                const EntityDescriptor * x;
+                while( ( x = it.NextEntityDesc() ) ) {
+                    std::cout << " " << x->Name();
+                }
+            }
+            std::cout << " SUBS";
+            {
+                EntityDescItr it( e->Subtypes() );
+                const EntityDescriptor * x;
+                while( ( x = it.NextEntityDesc() ) ) {
+                    std::cout << " " << x->Name();
+                }
+            }
+            std::cout << std::endl;
+        }
+        std::cout << "END" << std::endl;
         return 0;
     }
     lazyInstMgr lim;
